@@ -324,9 +324,41 @@ func runSeq(w *tracelog.Writer, seed int64, traces, ops int, capM uint64, disk b
 		pool := mkPool(rng, e.node, 24+rng.Intn(30), t%3)
 		small := t%4 == 0 // traces whose items all stay <= 5% of the capacity (WithinCapacity antecedent)
 		h := &handed{}
+		// scripted prefix (every 7th trace): a radius that has already shrunk, then prunes that delete everything they scan.
+		// Distances are byte palindromes (byte 0 = byte 31), so the big- and little-endian readings coincide.
+		type scripted struct {
+			v, n int
+		}
+		var script []scripted
+		if t%7 == 6 && e.capM == 1 {
+			palin := func(v int) []byte {
+				id := make([]byte, 32)
+				copy(id, e.node[:])
+				id[0] ^= byte(v)
+				id[31] ^= byte(v)
+				return id
+			}
+			pool = nil
+			for v := 1; v <= 120; v++ {
+				pool = append(pool, palin(v))
+			}
+			script = append(script, scripted{1, 600000})
+			for v := 100; v >= 86; v-- {
+				script = append(script, scripted{v, 40000})
+			}
+			for i := 0; i < 9; i++ {
+				script = append(script, scripted{1, 600000})
+			}
+			script = append(script, scripted{2, 1000}, scripted{90, 1000})
+		}
 		for step := 0; step < ops; step++ {
 			id := pool[rng.Intn(len(pool))]
-			switch k := rng.Intn(20); {
+			k := rng.Intn(20)
+			forced := -1
+			if step < len(script) {
+				id, forced, k = pool[script[step].v-1], script[step].n, 10
+			}
+			switch {
 			case k < 4:
 				v, err := e.cs.Get(e.keyFor(id), id)
 				ev := map[string]any{"ev": "get", "t": t, "id": tracelog.Ints(id)}
@@ -350,8 +382,12 @@ func runSeq(w *tracelog.Writer, seed int64, traces, ops int, capM uint64, disk b
 				w.Emit(map[string]any{"ev": "reopen", "t": t, "res": "ok", "snap": s, "sizeRec": rec, "radius": radiusBytes(e.cs), "changed": h.changed()})
 			default:
 				n := sizeClasses[rng.Intn(len(sizeClasses))]
-				if small {
+				if forced >= 0 {
+					n = forced
+				} else if small {
 					n = []int{0, 1, 31, 1000, 20000, 49000, 49968}[rng.Intn(7)] * int(e.capM)
+				} else if t%7 == 5 { // big items: prunes that delete everything they scan (no retained item fixes the new radius)
+					n = []int{300000, 600000, 995000, 49000, 20000}[rng.Intn(5)] * int(e.capM)
 				} else if rng.Intn(40) == 0 {
 					n = capB + 1000
 				}
